@@ -169,6 +169,9 @@ def run(pid, tier, seed, replay=None):
     if len(cases) != dist - not_cases:
         raise Inconclusive("TLC found %d states (%d of them partial) but exported %d distinct cases" % (dist, not_cases, len(cases)))
     cases.sort(key=lambda c: json.dumps(c, sort_keys=True))
+    # pinned inputs: cases that once exposed a defect (regress/C20/*.json), run after the enumerated ones
+    pinned = [json.load(open(f))["case"] for f in sorted(glob.glob(os.path.join(vlib.ROOT, "regress", PID, "*.json")))]
+    cases += [c for c in pinned if c not in cases]
 
     obs, go_dt, gout = run_cases(d, hv, cases, P)
     not_run = len(cases) - len(obs)
